@@ -55,11 +55,17 @@ def history(tname, meta, structs, rng, length):
     return f'hist.{tname} - {enc(selfv)} {len(steps)} ' + ' '.join(steps), steps
 
 
-def extra_run(man, tier, seed):
+def search_site(man, site, seed):
+    """a fact theorem about type `site` broke: run many histories on that type only and return the stale ones"""
+    out = extra_run(man, 'thorough', seed, only=site, nper=6000)
+    return out['failures']
+
+
+def extra_run(man, tier, seed, only=None, nper=None):
     rng = random.Random(seed * 31 + 9)
     structs = man['structs']
-    hist = man.get('hist', {})
-    nper = 40 if tier == 'quick' else 1500
+    hist = {k: v for k, v in man.get('hist', {}).items() if only is None or k == only}
+    nper = nper or (40 if tier == 'quick' else 1500)
     lines, meta = [], []
     for tname, m in sorted(hist.items()):
         for i in range(nper):
